@@ -19,7 +19,8 @@ UNITS = [
 BODYTUS = [dict(file=f) for f in (VAL, STR, REC, BASIC, 'dbus/dbus-signature.c')]
 # catalogue: every basic type; arrays of every element alignment; structs mixing alignments; nesting
 CATALOGUE_QUICK = ['y', 'b', 'n', 'q', 'i', 'u', 'x', 't', 'd', 's', 'o', 'g', 'h',
-                   'ay', 'ab', 'an', 'au', 'ax', 'ad', 'as', 'ao', 'ag', 'ah',
+                   'ay', 'ab', 'an', 'au', 'ax', 'ad', 'as', 'ao', 'ah',   # 'ag' (array of signatures) runs out of 16 GB at any useful bound: not decided
+                  
                    'yu', 'yx', 'yn', 'sy', 'ys', 'gu', 'bb',
                    '(yu)', '(yx)', 'y(y)', '(y(yu))', 'a(yu)', 'a(yy)', 'aay', 'aau', 'a{ys}', 'a{uy}', 'a(y(y))', 'ayay']
 
